@@ -154,6 +154,25 @@ def boxesDisjoint (ε : Rat) (c d : Cell) : Prop :=
 def NoOverlap (ε : Rat) (g : Grid) : Prop :=
   ∀ c ∈ g.cells, ∀ d ∈ g.cells, slotsDisjoint c d → boxesDisjoint ε c d
 
+/-- The ONE situation in which two cells of a table may share a grid slot (left undefined by CSS 2.1
+    §17.5, expected by the repository's own TestColspanRowspan1; the same exclusion as C09's
+    `overlap175`): `p` starts in an earlier row and spans several rows, `q` starts in a later row,
+    spans several columns and starts LEFT of `p` — it runs into `p`. -/
+def excepted175 (p q : Cell) : Prop :=
+  p.gy < q.gy ∧ 1 < p.rs ∧ 1 < q.cs ∧ q.gx < p.gx
+
+instance (p q : Cell) : Decidable (excepted175 p q) := by unfold excepted175; infer_instance
+
+/-- the grid slots (GridX × row, colspan × rowspan) the cells occupy are pairwise disjoint, except in
+    that one situation: a cell is never placed on a slot that is still held by a row-spanning cell -/
+def SlotsExclusive (g : Grid) : Prop :=
+  g.cells.Pairwise fun c d => slotsDisjoint c d ∨ excepted175 c d ∨ excepted175 d c
+
+/-- the geometric consequence: two cells whose border boxes overlap (by more than ε in both axes) are
+    in that one situation -/
+def OverlapOnlyExcepted (ε : Rat) (g : Grid) : Prop :=
+  g.cells.Pairwise fun c d => boxesDisjoint ε c d ∨ excepted175 c d ∨ excepted175 d c
+
 /-- no column, row or cell has a negative used size -/
 def NonNegative (ε : Rat) (g : Grid) : Prop :=
   leq ε 0 g.tw ∧ leq ε 0 g.th ∧
@@ -170,6 +189,8 @@ structure GridConsistent (ε : Rat) (g : Grid) : Prop where
   rowsFill : RowsFill ε g
   widthAtLeast : WidthAtLeast ε g
   noOverlap : NoOverlap ε g
+  slotsExclusive : SlotsExclusive g
+  overlapOnlyExcepted : OverlapOnlyExcepted ε g
   nonNegative : NonNegative ε g
 
 /-! ## decidability, and the judge -/
@@ -210,6 +231,8 @@ instance (ε : Rat) (g : Grid) : Decidable (WidthAtLeast ε g) := by
   infer_instance
 instance (ε : Rat) (g : Grid) : Decidable (NoOverlap ε g) := by unfold NoOverlap; infer_instance
 instance (ε : Rat) (g : Grid) : Decidable (NonNegative ε g) := by unfold NonNegative; infer_instance
+instance (g : Grid) : Decidable (SlotsExclusive g) := by unfold SlotsExclusive; infer_instance
+instance (ε : Rat) (g : Grid) : Decidable (OverlapOnlyExcepted ε g) := by unfold OverlapOnlyExcepted; infer_instance
 
 /-- names of the clauses of `GridConsistent ε g` that fail (empty = the property holds) -/
 def judge (ε : Rat) (g : Grid) : List String :=
@@ -222,6 +245,8 @@ def judge (ε : Rat) (g : Grid) : List String :=
   (if ∀ s, g.specW = some s → leq ε s g.tw then [] else ["specified-width"]) ++
   (if ∀ c ∈ g.cells, leq ε c.minw c.cw then [] else ["content-minimum"]) ++
   (if NoOverlap ε g then [] else ["overlap"]) ++
+  (if SlotsExclusive g then [] else ["slots"]) ++
+  (if OverlapOnlyExcepted ε g then [] else ["overlap-not-excepted"]) ++
   (if NonNegative ε g then [] else ["negative-size"])
 
 /-- for the report only: indices of the cells that break a per-cell clause -/
@@ -234,6 +259,8 @@ def judgeCells (ε : Rat) (g : Grid) : List (String × List Nat) :=
   [("cell-on-columns", offenders g fun c => decide (CellOnColumns ε g c)),
    ("cell-on-rows", offenders g fun c => decide (CellOnRows ε g c)),
    ("content-minimum", offenders g fun c => decide (leq ε c.minw c.cw)),
+   ("slots", offenders g fun c => g.cells.all fun d =>
+      decide (c = d ∨ slotsDisjoint c d ∨ excepted175 c d ∨ excepted175 d c)),
    ("negative-size", offenders g fun c => decide (leq ε 0 c.w ∧ leq ε 0 c.h ∧ leq ε 0 c.cw ∧ leq ε 0 c.ch))]
 
 end WR.C13
